@@ -35,6 +35,11 @@ def n_cases(tier):
 
 
 def one_case(rng, tier):
+    if rng.random() < 0.12:
+        # the same catalogue over None / falsy / string / nested-tuple elements with functions total on every value
+        xg = progs.XGen(rng, max_nodes=7)
+        prog = xg.program()
+        return {'prog': prog, 'inputs': xg.inputs(prog), 'mode': 'async' if rng.random() < 0.5 else 'plain', 'exotic': True}
     g = progs.Gen(rng, max_nodes=12 if tier == 'thorough' else 10)
     prog = g.program()
     inputs = g.inputs(prog, max_len=40 if tier == 'thorough' else 25)
@@ -70,6 +75,8 @@ def check_case(case, counters=None, sets=None):
         for s in prog['nodes']:
             sets.setdefault('node_types_seen', set()).add(s['op'])
         sets.setdefault('modes', set()).add(mode)
+        if case.get('exotic'):
+            counters['programs_over_exotic_values'] = counters.get('programs_over_exotic_values', 0) + 1
         if prog.get('extra_edges'):
             counters['programs_with_feedback_edge'] = counters.get('programs_with_feedback_edge', 0) + 1
     return res, viols, res
